@@ -108,6 +108,15 @@ def compare(res: Res, p: dict, r0, src0: str, knobs: list[str], rng: random.Rand
         q = dict(p, prog=ex)
     lay = Layout(random.Random(rng.getrandbits(32)), **{k: True for k in knobs})
     src1, files1 = materialise(q, lay)
+    if include:
+        # blank lines around the moved run; the included file may end without a line end
+        for k in list(files1):
+            if k.endswith(".s") and isinstance(files1[k], str):
+                c = rng.random()
+                if c < 0.3:
+                    files1[k] = files1[k].rstrip("\n")
+                elif c < 0.45:
+                    files1[k] = "\n\n" + files1[k] + "\n\n"
     r1 = assemble(src1, files=files1 or None, rom=p.get("rom"))
     names = knobs + (["include"] if include else [])
     res.case(src1, r0.ok and src1 != src0)
